@@ -6,11 +6,17 @@ export GOFLAGS=-mod=mod GOPROXY=off GOSUMDB=off GOTOOLCHAIN=local
 command -v tlc >/dev/null || { echo "tlc not found"; exit 1; }
 command -v go >/dev/null || { echo "go not found"; exit 1; }
 command -v python3 >/dev/null || { echo "python3 not found"; exit 1; }
+command -v tlapm >/dev/null || { echo "tlapm not found"; exit 1; }
 tmp=$(mktemp -d)
 trap 'rm -rf "$tmp"' EXIT
 cp spec/*.tla "$tmp"/
 for f in "$tmp"/*.tla; do
-  (cd "$tmp" && timeout 120 tla-sany "$(basename "$f")" >"$tmp/sany.out" 2>&1) || { echo "SANY failed on $f"; cat "$tmp/sany.out"; exit 1; }
+  case "$f" in
+    *Proof.tla)  # proof modules extend TLAPS (the proof system's library): checked by the proof system itself
+      (cd "$tmp" && timeout 600 tlapm --threads 8 "$(basename "$f")" >"$tmp/tlapm.out" 2>&1 && grep -q "obligations proved" "$tmp/tlapm.out") || { echo "tlapm failed on $f"; tail -20 "$tmp/tlapm.out"; exit 1; } ;;
+    *)
+      (cd "$tmp" && timeout 120 tla-sany "$(basename "$f")" >"$tmp/sany.out" 2>&1) || { echo "SANY failed on $f"; cat "$tmp/sany.out"; exit 1; } ;;
+  esac
 done
 python3 tools/selftest.py || { echo "binding self-test failed"; exit 1; }
 echo "setup ok: $(ls spec/*.tla | wc -l) modules parsed"
